@@ -82,8 +82,13 @@ func run(r *ev.Run, cfg props.Cfg) {
 			}
 		}()
 	}
+	// the -race slice runs alongside (most of the time the cases wait on library timeouts)
+	wg.Add(1)
+	go func() {
+		defer wg.Done()
+		sink.RaceSlice(r, cfg, "C12", W/2, nil)
+	}()
 	wg.Wait()
-	sink.RaceSlice(r, cfg, "C12", W/2, nil)
 	r.Assume("'permanently locked' is restated as: not usable within a patience of 45 s (the library's own waits on these paths are 10 s each) while the control channel of the same client is; if the control probe fails too the case is inconclusive")
 	r.Assume("liveness is probed on the victim only: its channel lock is free and it answers a valid incoming update; the adversary's own client may be out of sync after its own hostile messages")
 }
@@ -569,7 +574,7 @@ func childMain(cfg props.Cfg) int {
 	}
 	var w, W, from int
 	fmt.Sscanf(arg, "%d/%d:%d", &w, &W, &from)
-	n := cfg.Pick(3000, 60000)/W + 1
+	n := cfg.Pick(2000, 60000)/W + 1
 	var s sink.Sink = em
 	if mode == "race" {
 		s = sink.Prefixed{Sink: em, P: "race_slice_"}
